@@ -101,6 +101,17 @@ Clauses(fam, a) ==
     [] fam = "k_extract" ->     \* a: R (number of components), idx (components to keep), form (how the argument is spelled)
          [count_in_range |-> Len(a.idx) \in 1..a.R,
           in_range       |-> \A k \in 1..Len(a.idx) : a.idx[k] \in 0..(a.R - 1)]
+    [] fam = "sptenmat_setitem" -> \* a: nrows, ncols (shape of the matrix), r, c (row / column subscript of the assigned element)
+         [in_range |-> a.r \in 0..(a.nrows - 1) /\ a.c \in 0..(a.ncols - 1)]
+    [] fam = "mttkrps_factors" -> \* a: shape, rows, cols (row / column count of every matrix of the list)
+         [count      |-> Len(a.rows) = N_(a),
+          rows_match |-> Len(a.rows) = N_(a) => \A k \in 1..N_(a) : a.rows[k] = a.shape[k],
+          cols_equal |-> \A k \in 1..Len(a.cols) : a.cols[k] = a.cols[1]]
+    [] fam = "setitem_block" ->  \* a: shape (receiver), hi (the key is 0:hi[k] in every mode; may exceed the shape: growth), vshape (value)
+         [value_shape |-> a.vshape = a.hi]
+    [] fam = "fixsigns_other" -> \* a: rows, R (receiver), orows, oR (the reference Kruskal tensor)
+         [same_shape |-> a.orows = a.rows,
+          components |-> a.oR <= a.R]
     [] fam = "tt_reconstruct" -> \* a: N, modes (the modes that are sampled)
          [modes_in_range |-> \A k \in 1..Len(a.modes) : a.modes[k] \in 0..(a.N - 1),
           modes_distinct |-> IsInj(a.modes)]
